@@ -37,7 +37,9 @@ Record kcase := {
 (* a history on ONE FormatterFilter: Process calls (each with its own event) and Rotate calls *)
 Inductive hstep :=
 | HProc (c : kcase)                              (* the k_cfg of c is ignored: the configuration is the history's state *)
-| HRot (signer : N) (tag : bytes) (err : bool).  (* Rotate(signer of that kind; 0 = nil), observed: an error was returned *)
+| HRot (signer : N) (tag : bytes) (err : bool)   (* Rotate(signer of that kind; 0 = nil), observed: an error was returned *)
+| HSet (k : kcfg).                               (* the caller assigned exported fields of the node (or continues with a copy of
+                                                    the struct): k is the whole configuration in force from now on *)
 
 Inductive ccase :=
 | CHist (id : N) (k : kcfg) (steps : list hstep)
@@ -236,7 +238,8 @@ Definition set_cfg (c : kcase) (k : kcfg) : kcase :=
 Definition with_signer (k : kcfg) (s : N) (tag : bytes) : kcfg :=
   {| k_nil := k_nil k; k_source := k_source k; k_schema := k_schema k; k_format := k_format k; k_pred := k_pred k;
      k_signer := s; k_tag := tag; k_types := k_types k |}.
-(* the signer is the node's state: every event is judged under the signer in force when it is processed *)
+(* the configuration (signer included) is the node's only state: every event is judged under the configuration in force when
+   it is processed *)
 Fixpoint run_hist (k : kcfg) (i : N) (steps : list hstep) : list (N * N * kind) :=
   match steps with
   | [] => []
@@ -245,6 +248,7 @@ Fixpoint run_hist (k : kcfg) (i : N) (steps : list hstep) : list (N * N * kind) 
       let refused := s =? 0 in
       (if Bool.eqb err refused then [] else [(i, 6, KErr)]) ++
       run_hist (if refused then k else with_signer k s tag) (N.succ i) rest
+  | HSet k' :: rest => run_hist k' (N.succ i) rest
   end.
 
 Definition run_case (c : ccase) : list (N * (N * N * kind)) :=
